@@ -5,22 +5,22 @@
 EXTENDS Bytes
 
 \* p = 2^130 - 5 as 10 limbs
-PolyP == [k \in 1..10 |-> IF k = 1 THEN 8192 - 5 ELSE 8191]
+PolyP == Strict([k \in 1..10 |-> IF k = 1 THEN 8192 - 5 ELSE 8191])
 \* x mod p for x < 2^260 (up to 21 limbs): 2^130 = 5 (mod p), fold twice, then one conditional subtraction
 PolyFold(x) ==    \* lo + 5 * hi where x = lo + 2^130 * hi
-  LET lo == [k \in 1..10 |-> LimbAt(x, k)]
+  LET lo == Strict([k \in 1..10 |-> LimbAt(x, k)])
       hi == IF Len(x) > 10 THEN Drop(x, 10) ELSE <<0>>
   IN BigAdd(lo, BigMul(hi, <<5>>))
 PolyModP(x) ==
   LET y == PolyFold(PolyFold(x))                       \* < 2^130 + 25
-      y10 == [k \in 1..10 |-> LimbAt(y, k)]
+      y10 == Strict([k \in 1..10 |-> LimbAt(y, k)])
       over == \E k \in 11..Len(y) : y[k] # 0           \* y >= 2^130
   IN IF over THEN BigAdd(y10, <<5>>)                   \* y - p = y - 2^130 + 5 (and y - 2^130 < 25)
      ELSE IF BigGeq(y10, PolyP) THEN BigSub(y10, PolyP) ELSE y10
 \* 2.5.1 clamp(r): r &= 0x0ffffffc0ffffffc0ffffffc0fffffff   (r given as 16 little-endian bytes)
 PolyClamp(rb) ==
-  [k \in 1..16 |-> IF k \in {4, 8, 12, 16} THEN rb[k] % 16
-                   ELSE IF k \in {5, 9, 13} THEN rb[k] - (rb[k] % 4) ELSE rb[k]]
+  Strict([k \in 1..16 |-> IF k \in {4, 8, 12, 16} THEN rb[k] % 16
+                   ELSE IF k \in {5, 9, 13} THEN rb[k] - (rb[k] % 4) ELSE rb[k]])
 \* poly1305_mac(msg, key): key = r || s
 PolyMac(key, msg) ==
   LET r == LimbsOfLE(PolyClamp(Take(key, 16)), 10)
